@@ -2,9 +2,9 @@ package govc
 
 import (
 	"fmt"
-	"os"
 	"go/token"
 	"go/types"
+	"os"
 	"sort"
 	"strings"
 
@@ -53,26 +53,26 @@ type loopInfo struct {
 
 // Exec verifies one function (the root) and everything inlined into it.
 type Exec struct {
-	eng        *Engine
-	sc         *Script
-	arraySort  map[string]string
-	epochs     int
-	obls       []*Obligation
-	root       *ssa.Function
-	rootC      *Contract
-	frames     []*frame
-	loops      []*loopInfo
-	epilogue   []string
-	Notes      map[string]int
-	UsedTrust  map[string]bool
-	Inlined    map[string]bool
-	safe       bool
-	specDone   map[string]bool
-	uniq       int
-	boxDecl    bool
+	eng         *Engine
+	sc          *Script
+	arraySort   map[string]string
+	epochs      int
+	obls        []*Obligation
+	root        *ssa.Function
+	rootC       *Contract
+	frames      []*frame
+	loops       []*loopInfo
+	epilogue    []string
+	Notes       map[string]int
+	UsedTrust   map[string]bool
+	Inlined     map[string]bool
+	safe        bool
+	specDone    map[string]bool
+	uniq        int
+	boxDecl     bool
 	entryProbes []Probe
-	revealed   map[string]bool
-	lateProbes []*Clause
+	revealed    map[string]bool
+	lateProbes  []*Clause
 }
 
 // lateProbeValues evaluates the probes that mention locals in the given environment.
@@ -465,7 +465,7 @@ func (x *Exec) safeNonNil(obj string, reach string, pos token.Pos, what string) 
 		return
 	}
 	if x.safe {
-		x.addObl(&Obligation{Kind: "safe", Label: what, Pos: x.pos(pos), Reach: reach, Goal: Not(Eq(obj, "0")),
+		x.addObl(&Obligation{Kind: "safe", Label: what, Props: []string{"C12"}, Pos: x.pos(pos), Reach: reach, Goal: Not(Eq(obj, "0")),
 			Name: fmt.Sprintf("%s#safe.%s@L%d", shortFn(x.root), what, x.line(pos))})
 	}
 	x.sc.Assume(reach, Not(Eq(obj, "0")))
@@ -476,7 +476,7 @@ func (x *Exec) safeCond(cond string, reach string, pos token.Pos, what string) {
 		return
 	}
 	if x.safe {
-		x.addObl(&Obligation{Kind: "safe", Label: what, Pos: x.pos(pos), Reach: reach, Goal: cond,
+		x.addObl(&Obligation{Kind: "safe", Label: what, Props: []string{"C12"}, Pos: x.pos(pos), Reach: reach, Goal: cond,
 			Name: fmt.Sprintf("%s#safe.%s@L%d", shortFn(x.root), what, x.line(pos))})
 	}
 	x.sc.Assume(reach, cond)
@@ -613,6 +613,40 @@ func (x *Exec) VerifyRoot() ([]*Obligation, error) {
 			}
 		}
 	}
+	// vacuity guard: every point an obligation is stated at must be reachable under the assumptions
+	// made on the way to it (one witness query per distinct reachability condition)
+	seenReach := map[string]bool{"true": true}
+	var covers []*Obligation
+	// a witness belongs to the properties of the obligations it guards (all of them when one is untagged)
+	reachAll := map[string]bool{}
+	reachProps := map[string][]string{}
+	for _, o := range x.obls {
+		if o.ExpectSat {
+			continue
+		}
+		if len(o.Props) == 0 {
+			reachAll[o.Reach] = true
+			continue
+		}
+		for _, p := range o.Props {
+			if !hasProp(reachProps[o.Reach], p) {
+				reachProps[o.Reach] = append(reachProps[o.Reach], p)
+			}
+		}
+	}
+	for _, o := range x.obls {
+		if o.ExpectSat || seenReach[o.Reach] {
+			continue
+		}
+		seenReach[o.Reach] = true
+		var cprops []string
+		if !reachAll[o.Reach] {
+			cprops = reachProps[o.Reach]
+		}
+		covers = append(covers, &Obligation{Kind: "cover", Label: "return", Props: cprops, Pos: o.Pos, Reach: o.Reach, Goal: "false", ExpectSat: true,
+			Name: fmt.Sprintf("%s#cover.reach@%s", shortFn(fn), strings.TrimPrefix(o.Name[strings.Index(o.Name, "#")+1:], "")), Script: x.sc, ScriptLen: o.ScriptLen, Func: fn.String()})
+	}
+	x.obls = append(x.obls, covers...)
 	x.finishLoops()
 	for _, o := range x.obls {
 		o.Epilogue = x.epilogue
@@ -1020,6 +1054,10 @@ func (f *frame) enterLoop(b *ssa.BasicBlock, h *loopHead, pre *State, reach stri
 		}
 		nv.Clo = old.Clo
 		f.vals[phi] = nv
+		if phi.Comment == "rangeindex" && len(nv.L) == 1 {
+			// the hidden index of a range loop starts at -1 and only grows (by construction of go/ssa)
+			x.sc.Assume(reach, "(<= (- 1) "+nv.L[0]+")")
+		}
 	}
 	x.sc.Assume(reach, "(>= "+st.Get(allocName, "Int")+" "+preAlloc+")")
 	li.written[allocName] = true
@@ -1126,7 +1164,7 @@ func (f *frame) execBlock(b *ssa.BasicBlock, st *State, reach string) error {
 			return nil
 		case *ssa.Panic:
 			if x.safe {
-				x.addObl(&Obligation{Kind: "safe", Label: "explicit-panic", Pos: x.pos(in.Pos()), Reach: reach, Goal: "false",
+				x.addObl(&Obligation{Kind: "safe", Label: "explicit-panic", Props: []string{"C12"}, Pos: x.pos(in.Pos()), Reach: reach, Goal: "false",
 					Name: fmt.Sprintf("%s#safe.explicit-panic@L%d", shortFn(x.root), x.line(in.Pos()))})
 			}
 			return nil
